@@ -83,7 +83,10 @@ class C02(Prop):
                   "of its token and the broadcast parent tokens, whenever the parents arrive "
                   "(C02_dot_broadcast_partial), and the same with SEVERAL scattered ports on one flat dot product, where the "
                   "code keeps an arrival-dependent number of copies of each parent token and the proof carries the counts "
-                  "as an existential invariant (C02_dot_broadcast_multi_partial); (3) cartesian product of depth d>=1 over streams whose tag groups are "
+                  "as an existential invariant (C02_dot_broadcast_multi_partial); as a bag: exactly one combination per key "
+                  "whose token set holds one token per port, made of exactly those tokens, nothing else "
+                  "(C02_broadcast_exactly_one_partial), and two arrival orders give equal bags "
+                  "(C02_order_independent_broadcast_partial); (3) cartesian product of depth d>=1 over streams whose tag groups are "
                   "unrelated (implied by 'all tokens of one depth', C02_uniform_depth_groups_unrelated): the emitted "
                   "combinations are exactly the full cross product, each once, with the composite tag "
                   "(C02_cartesian_partial), and two arrival orders give equal bags "
@@ -92,7 +95,9 @@ class C02(Prop):
                   "broadcasts the tokens of Q to every inner combination, exactly once each, at whatever order the "
                   "tokens arrive (C02_nested_dot_partial from primitive conditions on the tags; C02_nested_partial, "
                   "C02_nested_cartesian_partial with the well-formedness of the list of inner combinations as a "
-                  "hypothesis stated on the specification). Three _refuted theorems exhibit the input classes in which "
+                  "hypothesis stated on the specification; C02_nested_dot_exactly_one_partial: as a bag, exactly one "
+                  "flattened combination per inner combination joined with the broadcast tokens; order independence of "
+                  "the nested run is not stated as a theorem). Three _refuted theorems exhibit the input classes in which "
                   "the faithful model breaks the property text (a tag and its ancestor on one port of a dot product; a "
                   "cartesian combinator with an inner combinator; a cartesian combinator over tokens of different depth). "
                   "NOT proved: several tag levels at one combinator (per-port antichains in general), trees deeper "
